@@ -54,7 +54,7 @@ var alphabets = map[Role][]*uint256.Int{
 	RO:  {uint256.NewInt(0), uint256.NewInt(1), uint256.NewInt(31), uint256.NewInt(32), uint256.NewInt(33), uint256.NewInt(64), uint256.NewInt(1 << 16), uint256.NewInt(1 << 32), pow2(63, 0), pow2(64, -1), pow2(64, 0), pow2(256, -1)},
 	RL:  {uint256.NewInt(32), uint256.NewInt(0), uint256.NewInt(1), uint256.NewInt(31), uint256.NewInt(33), uint256.NewInt(64), uint256.NewInt(1 << 16), uint256.NewInt(1 << 32), pow2(63, 0), pow2(64, -1), pow2(64, 0), pow2(256, -1)},
 	RA:  {addrWord(CRet), addrWord(Absent), addrWord(Empty), addrWord(EOA), addrWord(CStop), addrWord(CRevert), addrWord(CInval), addrWord(CLoop), addrWord(CWrite), addrWord(CDie), addrWord(CEcho), addrWord(T), uint256.NewInt(1), uint256.NewInt(2), uint256.NewInt(3), uint256.NewInt(4), uint256.NewInt(5), uint256.NewInt(6), uint256.NewInt(7), uint256.NewInt(8), uint256.NewInt(9), pow2(160, 1)},
-	RG:  {uint256.NewInt(100000), uint256.NewInt(0), uint256.NewInt(1), uint256.NewInt(2300), pow2(63, 0), pow2(256, -1)},
+	RG:  {uint256.NewInt(100000), uint256.NewInt(0), uint256.NewInt(1), uint256.NewInt(2300), pow2(63, 0), pow2(256, -1), pow2(64, 0), pow2(64, 5), pow2(128, 1)}, // the last three: low 64 bits below any cap, upper bits set
 	RV:  {uint256.NewInt(0), uint256.NewInt(1), uint256.NewInt(1000), uint256.NewInt(1001)},
 	RK:  {uint256.NewInt(0), uint256.NewInt(1), uint256.NewInt(2), pow2(256, -1)},
 	RJ:  {uint256.NewInt(0), uint256.NewInt(1), uint256.NewInt(0xffff)}, // delta to the epilogue JUMPDEST; 0xffff literal
